@@ -56,7 +56,7 @@ func c16Free(ng *NodeGroupOptions, k int) bool {
 		ng.TaintEffect = effects[verifChoice("effect", len(effects))]
 		return ng.TaintEffect == "" || ng.TaintEffect == v1.TaintEffectNoSchedule || ng.TaintEffect == v1.TaintEffectNoExecute || ng.TaintEffect == v1.TaintEffectPreferNoSchedule
 	case 7: // lifecycle
-		ls := []string{"", aws.LifecycleOnDemand, aws.LifecycleSpot, "reserved", "Spot"}
+		ls := []string{"", aws.LifecycleOnDemand, aws.LifecycleSpot, "reserved", "Spot", "capacity-block", "on-demand "}
 		ng.AWS.Lifecycle = ls[verifChoice("lifecycle", len(ls))]
 		return ng.AWS.Lifecycle == "" || ng.AWS.Lifecycle == aws.LifecycleOnDemand || ng.AWS.Lifecycle == aws.LifecycleSpot
 	case 8: // max node age: empty or a parsable duration (negative = disabled)
